@@ -784,7 +784,7 @@ func checkC12(seed uint64, replayDir, corpusDir string) (map[string]any, int) {
 				gg.ctxKeys = ctxKeysOf(&c.Ctx)
 				c.BS = gg.bigSegProvider(&c.Ctx, append(append([]WSegment{}, c.Store.Segments...), prev.Store.Segments...))
 			} else {
-				c = genStream(pick(r, []string{"wellformed", "prereqs", "bigseg", "segments", "malformed", "manykinds", "targets", "graphs", "wide", "operators", "bucketdense"}), r.fork(), fmt.Sprintf("C12/%d/%d/%d", seed, h, s))
+				c = genStream(pick(r, []string{"wellformed", "prereqs", "bigseg", "segments", "malformed", "manykinds", "targets", "graphs", "wide", "operators", "bucketdense", "segarray", "segarray"}), r.fork(), fmt.Sprintf("C12/%d/%d/%d", seed, h, s))
 				if prev != nil && r.chance(1, 2) {
 					// the next call sees an updated version of the previous store: some items replaced, some deleted
 					c.Store = mutateStore(r, &prev.Store, &c.Store)
